@@ -152,15 +152,15 @@ impl<F> FillRelView for JitterRng<F> where F: Fn() -> u64 + Send + Sync {
 
     # ---- Clone ----------------------------------------------------------------------------------------
     u.impl(cr, 'Clone@JitterRng', header='impl<F> Clone for JitterRng<F> where F: Clone', fns=['clone'], contracts={
-        'clone': Fn(None, ret='r', builtin_props='C14', ensures=[
+        'clone': Fn(None, ret='r', builtin_props='C14 C18', ensures=[
             C('jitter.clone.no_pending_half', 'C16', '!r.data_half_used'),
             C('jitter.clone.fields', 'C10 C16', 'r.data == self.data && r.rounds == self.rounds && r.mem_prev_index == self.mem_prev_index')])})
 
     ip = 'impl@JitterRng#2'
     cs = {}
-    cs['new_with_timer'] = Fn(None, ret='r', builtin_props='C14', ensures=[
+    cs['new_with_timer'] = Fn(None, ret='r', builtin_props='C14 C18', ensures=[
         C('jitter.new_with_timer.init', 'C12 C16', 'r.data == 0 && r.rounds == 64 && r.mem_prev_index == 0 && !r.data_half_used && r.timer == timer')])
-    cs['set_rounds'] = Fn(None, builtin_props='C14',
+    cs['set_rounds'] = Fn(None, builtin_props='C14 C18',
                           requires=[C('jitter.set_rounds.documented_panic', '', 'rounds > 0')],
                           ensures=[C('jitter.set_rounds.sets', 'C12', 'final(self).rounds == rounds && final(self).data == old(self).data && final(self).timer == old(self).timer '
                                      '&& final(self).data_half_used == old(self).data_half_used && final(self).mem_prev_index == old(self).mem_prev_index')])
@@ -280,16 +280,16 @@ impl<F> FillRelView for JitterRng<F> where F: Fn() -> u64 + Send + Sync {
     rp = 'RngCore@JitterRng'
     W = ' where F: Fn() -> u64 + Send + Sync'
     u.impl(cr, rp, header='impl<F> Next64 for JitterRng<F>' + W, fns=['next_u64'], contracts={
-        'next_u64': Fn(None, ret='r', builtin_props='C14', trait_props='C05 C12 C16', ensures=[
+        'next_u64': Fn(None, ret='r', builtin_props='C14 C18', trait_props='C05 C12 C16', ensures=[
             C('jitter.next_u64.fresh_collection', 'C12 C16', 'final(self).data == r && !final(self).data_half_used && collected(old(self).v(), r)'),
             C('jitter.next_u64.frame', 'C12', 'final(self).rounds == old(self).rounds && final(self).timer == old(self).timer')])})
     u.impl(cr, rp, header='impl<F> Next32 for JitterRng<F>' + W, fns=['next_u32'], contracts={
-        'next_u32': Fn(None, ret='r', builtin_props='C14', trait_props='C05 C12 C16', ensures=[
+        'next_u32': Fn(None, ret='r', builtin_props='C14 C18', trait_props='C05 C12 C16', ensures=[
             C('jitter.next_u32.high_half_once', 'C05 C16', 'old(self).data_half_used ==> r == (old(self).data >> 32u64) as u32 && final(self).data == old(self).data && !final(self).data_half_used'),
             C('jitter.next_u32.low_half_fresh', 'C05 C12 C16', '!old(self).data_half_used ==> final(self).data_half_used && r == final(self).data as u32 && collected(old(self).v(), final(self).data)'),
             C('jitter.next_u32.frame', 'C12', 'final(self).rounds == old(self).rounds && final(self).timer == old(self).timer')])})
     u.impl(cr, rp, header='impl<F> Fill for JitterRng<F>' + W, fns=['fill_bytes'], contracts={
-        'fill_bytes': Fn(None, builtin_props='C14', trait_props='C05 C16', ensures=[
+        'fill_bytes': Fn(None, builtin_props='C14 C18', trait_props='C05 C16', ensures=[
             # C16, stated literally: with a half pending, fill_bytes starts a fresh collection (its first word is a collected value)
             C('jitter.fill_bytes.discards_pending_half.len_ge_5', 'C16',
               'old(self).data_half_used && old(dest)@.len() >= 5 ==> fresh_first_word(old(self).v(), final(dest)@)'),
